@@ -261,6 +261,11 @@ func (c *ExpressionParser) completeLexicalAnalysis() error {
 			}
 		case tokenizers.Word:
 			{
+				// A quoted identifier can be empty (""): there is no variable without a name
+				if token.Value() == "" {
+					err := errors.NewSyntaxError("", errors.ErrUnknownSymbol, "Empty identifier", token.Line(), token.Column())
+					return err
+				}
 				tokenType = Variable
 				tokenValue = variants.VariantFromString(token.Value())
 				break
